@@ -2,7 +2,7 @@
    Only ExtrOcamlBasic (bool, option, list, prod, unit, sumbool -> OCaml's own types);
    N, Z, positive, nat stay the extracted inductive types.  No Extract Constant. *)
 From Coq Require Extraction ExtrOcamlBasic.
-From Shred Require Import Base SrcParams Plan PlanObs Exec ExecObs Visit Fault World SysData Meta ParSeq Async Pool.
+From Shred Require Import Base SrcParams Plan PlanObs Exec ExecObs NestedObs Visit Fault World SysData Meta ParSeq Async Pool.
 Extraction Language OCaml.
 Extraction "extracted/model.ml"
   cap join_slack time_values tuple_arities params_source
@@ -11,6 +11,7 @@ Extraction "extracted/model.ml"
   o_exec_perm o_isolated o_deps_ordered o_barriers o_skip_justified o_max_threads o_print o_sendable spec_first_error
   rw_conflict eff_reads eff_writes find_reg reg_tag dep_tags
   accept_disp trace_seq group_trace ev_eqb o_once o_no_overlap o_preds_done o_tl_last o_inside must_precede subtree_tags model_layout
+  naccept tree_tags
   visits leaf_tags
   faccept_disp ftrace_seq fgroup
   World.step World.empty_world World.probe World.dropped World.run
